@@ -14,9 +14,12 @@ import (
 	"errors"
 	"fmt"
 	"math"
+	"net/http"
+	"net/http/httptest"
 	"sort"
 	"strings"
 	"sync"
+	"sync/atomic"
 	"time"
 
 	"verifharness/vh"
@@ -32,12 +35,21 @@ type Cfg struct {
 	FbDelay   int    `json:"fbdelay"`
 	FbEnabled bool   `json:"fb_enabled"`
 	Orig      string `json:"orig"` // standby | active
+	// HealthConfig.FailureThreshold / RecoveryThreshold handed to the real monitor (0 behaves as 1 in
+	// the code and in the Model; stored witnesses that predate the thresholds carry none)
+	Fthr int `json:"fthr,omitempty"`
+	Rthr int `json:"rthr,omitempty"`
 }
 type Ev struct {
 	K  string `json:"k"` // down up adv firefo firefb stalefo stalefb tick forcefo forcefb cb
 	D  int    `json:"d,omitempty"`
 	I  int    `json:"i,omitempty"`
 	Ok bool   `json:"ok,omitempty"`
+	// V (down / up only): "" = the check result is fed to the monitor's recordFailure / recordSuccess
+	// through the hook; otherwise the monitor performs a REAL check (CheckNow -> performCheck, HTTP GET
+	// /ha/health) against a scripted partner that answers: "ok" (200, status healthy), "500", "204",
+	// "badjson" (200, undecodable body), "degraded" (200, status degraded), "abort" (connection dropped)
+	V string `json:"v,omitempty"`
 }
 type Case struct {
 	Cfg Cfg  `json:"cfg"`
@@ -69,6 +81,11 @@ type world struct {
 	entered chan *cbWait
 	mu      sync.Mutex
 	events  []string
+	unit    time.Duration
+	srv     *httptest.Server
+	mode    atomic.Value // how the scripted partner answers the next health check
+	hev     int // health notification of the current step (1 partner_down 2 partner_up 3 check_failed 4 check_succeeded)
+	hevN    int // how many notifications the step produced (must be <= 1)
 }
 
 func roleOf(s string) ha.Role {
@@ -89,14 +106,58 @@ func coqRole(r ha.Role) string {
 
 var stNames = []string{"Normal", "Pending", "InProgress", "Complete", "FailbackPending"}
 
-func newWorld(cfg Cfg) *world {
+// the scripted partner: a real HTTP server answering /ha/health as the case says
+func (w *world) partner() *httptest.Server {
+	return httptest.NewServer(http.HandlerFunc(func(rw http.ResponseWriter, r *http.Request) {
+		if r.URL.Path != "/ha/health" || r.Method != "GET" {
+			rw.WriteHeader(404)
+			return
+		}
+		switch w.mode.Load().(string) {
+		case "ok":
+			rw.Header().Set("Content-Type", "application/json")
+			fmt.Fprint(rw, `{"status":"healthy","role":"active","node_id":"partner","details":{"sessions_synced":3}}`)
+		case "500":
+			rw.WriteHeader(500)
+			fmt.Fprint(rw, `{"status":"healthy"}`)
+		case "204":
+			rw.WriteHeader(204)
+		case "badjson":
+			fmt.Fprint(rw, `{"status": healthy`)
+		case "degraded":
+			fmt.Fprint(rw, `{"status":"degraded","role":"active","node_id":"partner"}`)
+		default: // "abort": drop the connection without an answer
+			panic(http.ErrAbortHandler)
+		}
+	}))
+}
+
+func usesHTTP(evs []Ev) bool {
+	for _, e := range evs {
+		if e.V != "" {
+			return true
+		}
+	}
+	return false
+}
+
+func newWorld(cfg Cfg, evs []Ev) *world { return newWorldU(cfg, evs, unit) }
+
+func newWorldU(cfg Cfg, evs []Ev, u time.Duration) *world {
 	lg := zap.NewNop()
-	m := ha.NewHealthMonitor(ha.HealthConfig{CheckInterval: time.Hour, Timeout: time.Second, FailureThreshold: 1, RecoveryThreshold: 1},
-		&ha.PartnerInfo{NodeID: "partner", Endpoint: "127.0.0.1:1"}, lg)
-	fc := ha.FailoverConfig{Enabled: true, FailoverDelay: time.Duration(cfg.Delay) * unit, FailbackDelay: time.Duration(cfg.FbDelay) * unit,
+	w := &world{entered: make(chan *cbWait), unit: u}
+	w.mode.Store("ok")
+	endpoint := "127.0.0.1:1"
+	if usesHTTP(evs) {
+		w.srv = w.partner()
+		endpoint = strings.TrimPrefix(w.srv.URL, "http://")
+	}
+	m := ha.NewHealthMonitor(ha.HealthConfig{CheckInterval: time.Hour, Timeout: 2 * time.Second, FailureThreshold: cfg.Fthr, RecoveryThreshold: cfg.Rthr},
+		&ha.PartnerInfo{NodeID: "partner", Endpoint: endpoint}, lg)
+	fc := ha.FailoverConfig{Enabled: true, FailoverDelay: time.Duration(cfg.Delay) * u, FailbackDelay: time.Duration(cfg.FbDelay) * u,
 		FailbackEnabled: cfg.FbEnabled, GracePeriod: 50 * time.Microsecond}
 	c := ha.NewFailoverController(fc, "node-1", roleOf(cfg.Orig), 1, m, lg)
-	w := &world{c: c, m: m, entered: make(chan *cbWait)}
+	w.c, w.m = c, m
 	c.SetRoleChangeCallback(func(r ha.Role) error {
 		cw := &cbWait{role: r, release: make(chan error)}
 		w.entered <- cw
@@ -108,6 +169,24 @@ func newWorld(cfg Cfg) *world {
 	c.OnFailoverEvent(func(e ha.FailoverEvent) {
 		w.mu.Lock()
 		w.events = append(w.events, fmt.Sprintf("(%s, %s, %s)", evn[e.Type], coqRole(e.OldRole), coqRole(e.NewRole)))
+		w.mu.Unlock()
+	})
+	// the harness listens to the monitor's notifications like any other OnHealthChange subscriber
+	m.OnHealthChange(func(e ha.HealthEvent) {
+		w.mu.Lock()
+		w.hevN++
+		switch e.Type {
+		case ha.HealthEventPartnerDown:
+			w.hev = 1
+		case ha.HealthEventPartnerUp:
+			w.hev = 2
+		case ha.HealthEventCheckFailed:
+			w.hev = 3
+		case ha.HealthEventCheckSucceeded:
+			w.hev = 4
+		default:
+			w.hev = 9
+		}
 		w.mu.Unlock()
 	})
 	c.VerifAttach()
@@ -179,10 +258,22 @@ func (w *world) apply(e Ev) (op string, res string, cb *cbWait) {
 	switch e.K {
 	case "down":
 		op = "Down"
-		w.m.VerifRecordFailure()
+		if e.V == "" {
+			w.m.VerifRecordFailure()
+		} else {
+			// a real check against the scripted partner; the event says what the answer MEANS (any
+			// answer other than 200 + decodable body + status "healthy" is a failed check)
+			w.mode.Store(e.V)
+			_ = w.m.CheckNow()
+		}
 	case "up":
 		op = "Up"
-		w.m.VerifRecordSuccess()
+		if e.V == "" {
+			w.m.VerifRecordSuccess()
+		} else {
+			w.mode.Store("ok")
+			_ = w.m.CheckNow()
+		}
 	case "adv":
 		op = fmt.Sprintf("Advance %d", e.D)
 		w.now += int64(e.D)
@@ -249,6 +340,14 @@ func (w *world) apply(e Ev) (op string, res string, cb *cbWait) {
 	return
 }
 
+// counters are ints in the code; a negative value is not expressible in N (it would be a defect)
+func coqN(v int) string {
+	if v < 0 {
+		return "(BadCounter)"
+	}
+	return fmt.Sprintf("%d", v)
+}
+
 func (w *world) observe(res string, cb *cbWait) string {
 	fo, fb := w.c.VerifTimers()
 	fod, fbd := w.c.VerifDeadlines()
@@ -257,7 +356,13 @@ func (w *world) observe(res string, cb *cbWait) string {
 	w.mu.Lock()
 	evs := w.events
 	w.events = nil
+	hev := w.hev
+	if w.hevN > 1 {
+		hev = 10 + w.hevN // more than one notification for one check: not expressible in the Model
+	}
+	w.hev, w.hevN = 0, 0
 	w.mu.Unlock()
+	hl := w.m.Health()
 	st := int(w.c.State())
 	sts := "(BadState)"
 	if st >= 0 && st < len(stNames) {
@@ -268,9 +373,219 @@ func (w *world) observe(res string, cb *cbWait) string {
 	if cb != nil {
 		cbs = "(Some " + coqRole(cb.role) + ")"
 	}
-	return fmt.Sprintf("mkOut %s %s (%d,%d,%d,%d) %s %s %s %d %d %s %s (%s)", coqRole(w.c.CurrentRole()), sts, i, c, x, f,
+	return fmt.Sprintf("mkOut %s %s (%d,%d,%d,%d) %s %s %s %d %d %s (%s,%s) %d %s (%s)", coqRole(w.c.CurrentRole()), sts, i, c, x, f,
 		vh.List(evs), vh.Bool(w.fo != nil && w.fo.pending), vh.Bool(w.fb != nil && w.fb.pending), w.foZ, w.fbZ,
-		vh.Bool(w.m.IsPartnerHealthy()), cbs, res)
+		vh.Bool(w.m.IsPartnerHealthy()), coqN(hl.ConsecutiveFailures), coqN(hl.ConsecutiveSuccesses), hev, cbs, res)
+}
+
+// ---- real-time stream: the REAL time.AfterFunc timers fire by themselves ----
+//
+// Delays are milliseconds here (1 model unit = 1 ms) and nothing is driven through the timer hooks:
+// the controller's own timer closure runs when the Go runtime fires it. The driver only measures: the
+// model time handed to [Advance] before a [FireFO]/[FireFB] is the real time between the instant just
+// BEFORE the check that armed the timer was injected and the instant the role-change callback was seen
+// entered, rounded down — an under-estimate never exceeds the truth by more than the scheduling
+// latency, and a timer that fires before its configured delay shows as a promotion with the partner
+// down for less than the delay (clause 2) whatever the machine load. The timer-pending flags are not
+// probed in this stream (a probe re-arms the real timer): they are filled from State() (pending <=>
+// failover timer armed; failback_pending with no callback outstanding <=> failback timer armed), which
+// holds on these stale-free single-execution histories. An [Advance] step repeats the previous
+// observation (nothing of the implementation runs at a clock move).
+func (w *world) observeRT(res string, cb *cbWait) (full, quiet string) {
+	w.mu.Lock()
+	evs := w.events
+	w.events = nil
+	hev := w.hev
+	if w.hevN > 1 {
+		hev = 10 + w.hevN
+	}
+	w.hev, w.hevN = 0, 0
+	w.mu.Unlock()
+	hl := w.m.Health()
+	st := int(w.c.State())
+	sts := "(BadState)"
+	if st >= 0 && st < len(stNames) {
+		sts = stNames[st]
+	}
+	fbOut := false
+	for _, x := range w.infl {
+		if x.kind == "fb" {
+			fbOut = true
+		}
+	}
+	i, c, x, f := w.c.Stats()
+	cbs := "None"
+	if cb != nil {
+		cbs = "(Some " + coqRole(cb.role) + ")"
+	}
+	mk := func(evs []string, hev int, cbs, res string) string {
+		return fmt.Sprintf("mkOut %s %s (%d,%d,%d,%d) %s %s %s 0 0 %s (%s,%s) %d %s (%s)", coqRole(w.c.CurrentRole()), sts, i, c, x, f,
+			vh.List(evs), vh.Bool(sts == "Pending"), vh.Bool(sts == "FailbackPending" && !fbOut),
+			vh.Bool(w.m.IsPartnerHealthy()), coqN(hl.ConsecutiveFailures), coqN(hl.ConsecutiveSuccesses), hev, cbs, res)
+	}
+	// quiet = the same state observed again with nothing having happened (for clock moves)
+	return mk(evs, hev, cbs, res), mk(nil, 0, "None", "RNone")
+}
+
+// RT describes one real-time case: thresholds, delays in ms, and the script
+//   promote   : F failed checks, wait for the promotion
+//   cancel    : F failed checks, R successful ones after a third of the delay, then 2 x delay of silence
+//   flap      : F-1 failed, 1 ok, F-1 failed (no report), silence for 2 x delay; then as promote
+//   failback  : promote, then R successful checks, wait for the failback
+type RT struct {
+	Cfg    Cfg    `json:"cfg"`
+	Script string `json:"script"`
+}
+
+func runRT(rt RT) (vh.Case, bool) {
+	cfg := rt.Cfg
+	w := newWorldU(cfg, nil, time.Millisecond)
+	defer w.close()
+	var tr []string
+	last := ""
+	emit := func(op string, full, quiet string) { tr = append(tr, vh.Pair(op, full)); last = quiet }
+	ms := func(d time.Duration) int { return int(d / time.Millisecond) }
+	checksN := func(k string, n int) time.Time {
+		t := time.Now()
+		for ; n > 0; n-- {
+			op, res, cb := w.apply(Ev{K: k})
+			f, q := w.observeRT(res, cb)
+			emit(op, f, q)
+		}
+		return t
+	}
+	// waitFire waits (at most lim) until a timer-started execution enters the callback; emits
+	// Advance(elapsed since t0, minus what was already advanced) and the Fire event
+	advanced := 0
+	advTo := func(t0 time.Time, t time.Time) {
+		if d := ms(t.Sub(t0)) - advanced; d > 0 {
+			emit(fmt.Sprintf("Advance %d", d), last, last)
+			advanced += d
+		}
+	}
+	waitFire := func(t0 time.Time, fire, kind string, lim time.Duration) bool {
+		select {
+		case cw := <-w.entered:
+			now := time.Now()
+			done := make(chan struct{}) // the timer goroutine is the runtime's: nothing to wait for
+			cw.done, cw.kind = done, kind
+			close(done)
+			w.infl = append(w.infl, cw)
+			advTo(t0, now)
+			f, q := w.observeRT("RFire true", cw)
+			emit(fire, f, q)
+			return true
+		case <-time.After(lim):
+			advTo(t0, time.Now())
+			f, q := w.observeRT("RFire false", nil)
+			emit(fire, f, q)
+			return false
+		}
+	}
+	release := func(ok bool) {
+		cw := w.infl[0]
+		w.infl = w.infl[1:]
+		st0 := w.c.State()
+		if ok {
+			cw.release <- nil
+		} else {
+			cw.release <- errors.New("role change refused")
+		}
+		// the execution continues in the runtime's timer goroutine: wait until it has published its
+		// result (an error: the state change is its last action; success: role_changed is the last
+		// event it emits)
+		for i := 0; i < 10000; i++ {
+			w.mu.Lock()
+			n := len(w.events)
+			w.mu.Unlock()
+			if (ok && n >= 2) || (!ok && w.c.State() != st0) {
+				break
+			}
+			time.Sleep(time.Millisecond)
+		}
+		f, q := w.observeRT("RNone", nil)
+		emit(fmt.Sprintf("CbReturn 0 %s", vh.Bool(ok)), f, q)
+	}
+	D, FD := time.Duration(cfg.Delay)*time.Millisecond, time.Duration(cfg.FbDelay)*time.Millisecond
+	F, R := cfg.Fthr, cfg.Rthr
+	if F < 1 {
+		F = 1
+	}
+	if R < 1 {
+		R = 1
+	}
+	valid := true
+	switch rt.Script {
+	case "promote", "failback":
+		t0 := checksN("down", F)
+		if waitFire(t0, "FireFO", "fo", 20*D+5*time.Second) {
+			release(true)
+			if rt.Script == "failback" {
+				advanced = 0
+				t1 := checksN("up", R)
+				if waitFire(t1, "FireFB", "fb", 20*FD+5*time.Second) {
+					release(true)
+				}
+			}
+		}
+	case "cancel":
+		t0 := checksN("down", F)
+		time.Sleep(D / 3)
+		tUp := time.Now()
+		advTo(t0, tUp)
+		checksN("up", R)
+		if time.Since(t0) >= D-10*time.Millisecond { // too slow to say which came first: not a case
+			valid = false
+		}
+		waitFire(t0, "FireFO", "fo", 2*D)
+	case "flap":
+		t0 := checksN("down", F-1)
+		checksN("up", 1)
+		checksN("down", F-1)
+		if waitFire(t0, "FireFO", "fo", 2*D) {
+			release(true)
+		} else {
+			advanced = 0
+			t1 := checksN("down", F)
+			if waitFire(t1, "FireFO", "fo", 20*D+5*time.Second) {
+				release(true)
+			}
+		}
+	}
+	return vh.Case{Coq: "(" + coqCfg(cfg) + ",\n  " + vh.List(tr) + ")", Desc: rt,
+		Tags: []string{"realtime", "realtime:" + rt.Script, fmt.Sprintf("thresholds:%d/%d", cfg.Fthr, cfg.Rthr)}}, valid
+}
+
+func realtimeCases(thorough bool) []vh.Case {
+	var rts []RT
+	ths := [][2]int{{3, 2}, {1, 1}}
+	if thorough {
+		ths = append(ths, [2]int{2, 3}, [2]int{4, 1})
+	}
+	for _, th := range ths {
+		for _, sc := range []string{"promote", "cancel", "flap", "failback"} {
+			rts = append(rts, RT{Cfg: Cfg{Delay: 150, FbDelay: 90, FbEnabled: true, Orig: "standby", Fthr: th[0], Rthr: th[1]}, Script: sc})
+		}
+	}
+	out := make([]*vh.Case, len(rts))
+	var wg sync.WaitGroup
+	for i := range rts {
+		wg.Add(1)
+		go func(i int) {
+			defer wg.Done()
+			if cs, ok := runRT(rts[i]); ok {
+				out[i] = &cs
+			}
+		}(i)
+	}
+	wg.Wait()
+	var res []vh.Case
+	for _, c := range out {
+		if c != nil {
+			res = append(res, *c)
+		}
+	}
+	return res
 }
 
 // fingerprint of the implementation-visible state (used to prune the exhaustive exploration)
@@ -298,8 +613,9 @@ func (w *world) fingerprint(cfg Cfg) string {
 	if age > int64(cfg.Delay)+1 {
 		age = int64(cfg.Delay) + 1
 	}
-	return fmt.Sprintf("%s|%d|%v|%d|%d|%d|%d|%s|%d", w.c.CurrentRole(), w.c.State(), w.m.IsPartnerHealthy(), rem(w.fo), rem(w.fb),
-		capi(w.foZ, 2), capi(w.fbZ, 2), strings.Join(ks, ","), age)
+	hl := w.m.Health()
+	return fmt.Sprintf("%s|%d|%v|%d|%d|%d|%d|%s|%d|%d|%d", w.c.CurrentRole(), w.c.State(), w.m.IsPartnerHealthy(), rem(w.fo), rem(w.fb),
+		capi(w.foZ, 2), capi(w.fbZ, 2), strings.Join(ks, ","), age, capi(hl.ConsecutiveFailures, cfg.Fthr), capi(hl.ConsecutiveSuccesses, cfg.Rthr))
 }
 
 func (w *world) close() {
@@ -309,27 +625,37 @@ func (w *world) close() {
 	}
 	w.infl = nil
 	w.c.Stop()
+	if w.srv != nil {
+		w.srv.Close()
+	}
 }
 
 func coqCfg(c Cfg) string {
-	return fmt.Sprintf("Build_config %d %d %s %s", c.Delay, c.FbDelay, vh.Bool(c.FbEnabled), coqRole(roleOf(c.Orig)))
+	return fmt.Sprintf("Build_config %d %d %s %s %d %d", c.Delay, c.FbDelay, vh.Bool(c.FbEnabled), coqRole(roleOf(c.Orig)), c.Fthr, c.Rthr)
 }
 
 // run executes a case on the real controller; returns the Coq case and the final fingerprint.
 func run(c Case, extraTags ...string) (vh.Case, string) {
-	w := newWorld(c.Cfg)
+	w := newWorld(c.Cfg, c.Evs)
 	var tr []string
 	tags := map[string]bool{}
 	maxInfl := 0
 	for _, e := range c.Evs {
 		wasHealthy := w.m.IsPartnerHealthy()
 		op, res, cb := w.apply(e)
-		if e.K == "down" && wasHealthy {
+		if wasHealthy && !w.m.IsPartnerHealthy() {
 			w.since = w.now
+			tags["partner-down-reported"] = true
+		}
+		if !wasHealthy && w.m.IsPartnerHealthy() {
+			tags["partner-up-reported"] = true
 		}
 		out := w.observe(res, cb)
 		tr = append(tr, vh.Pair(op, out))
 		tags["ev:"+e.K] = true
+		if e.V != "" {
+			tags["real-http-check:"+e.V] = true
+		}
 		if cb != nil {
 			tags["exec-started:"+cb.kind] = true
 		}
@@ -376,7 +702,7 @@ func explore(cfg Cfg, depth int, seeds []string) []vh.Case {
 	seen := map[string]bool{}
 	var frontier [][]Ev
 	for _, sd := range append([]string{""}, seeds...) {
-		p := parseEvs(sd)
+		p := expand(parseEvs(sd), cfg)
 		_, fp := run(Case{Cfg: cfg, Evs: p})
 		if !seen[fp] {
 			seen[fp] = true
@@ -417,6 +743,7 @@ func genRandom(r *vh.Rng, maxLen int) Case {
 	if r.Chance(1, 5) {
 		cfg.Delay, cfg.FbDelay = 1+r.Intn(6), 1+r.Intn(6)
 	}
+	cfg.Fthr, cfg.Rthr = pickThr(r)
 	alpha := alphabet(cfg, 3)
 	n := 4 + r.Intn(maxLen)
 	var evs []Ev
@@ -439,7 +766,10 @@ func genRandom(r *vh.Rng, maxLen int) Case {
 		}
 	}
 	if cfg.Delay == 10 && cfg.FbDelay == 12 && r.Chance(1, 2) {
-		evs = append(parseEvs(seedPrefixes[r.Intn(len(seedPrefixes))]), evs...)
+		evs = append(expand(parseEvs(seedPrefixes[r.Intn(len(seedPrefixes))]), cfg), evs...)
+	}
+	if cfg.Fthr > 1 && r.Chance(1, 2) { // make reports as frequent as with threshold 1: repeat some checks
+		evs = expand(evs, cfg)
 	}
 	// drop zero advances
 	var o []Ev
@@ -449,7 +779,157 @@ func genRandom(r *vh.Rng, maxLen int) Case {
 		}
 		o = append(o, e)
 	}
+	if r.Chance(1, 8) {
+		o = viaHTTP(r, o)
+	}
 	return Case{Cfg: cfg, Evs: o}
+}
+
+// expand rewrites a history written for thresholds 1/1 into one with the same partner-down /
+// partner-up reports under the case's thresholds: every failed check becomes FailureThreshold failed
+// checks, every successful one RecoveryThreshold successful checks.
+func expand(evs []Ev, cfg Cfg) []Ev {
+	var o []Ev
+	for _, e := range evs {
+		n := 1
+		if e.K == "down" && cfg.Fthr > 1 {
+			n = cfg.Fthr
+		}
+		if e.K == "up" && cfg.Rthr > 1 {
+			n = cfg.Rthr
+		}
+		for ; n > 0; n-- {
+			o = append(o, e)
+		}
+	}
+	return o
+}
+
+// hyst is the driver's own copy of the documented hysteresis; the generators use it to steer (to stay
+// inside a guard, to aim at threshold boundaries). It is never compared with anything.
+type hyst struct {
+	up   bool
+	f, s int
+}
+
+func (h *hyst) step(cfg Cfg, ok bool) {
+	if ok {
+		h.s, h.f = h.s+1, 0
+		if !h.up && h.s >= cfg.Rthr {
+			h.up = true
+		}
+	} else {
+		h.f, h.s = h.f+1, 0
+		if h.up && h.f >= cfg.Fthr {
+			h.up = false
+		}
+	}
+}
+func (h hyst) wouldGoDown(cfg Cfg) bool { return h.up && h.f+1 >= cfg.Fthr }
+
+// thresholds of the random streams: the harness default of the first version (1/1), the repository's
+// default (3/2) and everything between 0 and 4
+func pickThr(r *vh.Rng) (int, int) {
+	switch x := r.Intn(10); {
+	case x < 3:
+		return 1, 1
+	case x < 6:
+		return 3, 2
+	default:
+		return r.Intn(5), r.Intn(5)
+	}
+}
+
+// genFlap: check results around the threshold boundaries (runs of F-1, F, F+1 failures, R-1, R, R+1
+// successes, single flips), time passing in between, the timers given a chance to fire after every
+// run, callbacks answered at once (so only the monitor + timer logic is in play).
+func genFlap(r *vh.Rng, maxLen int) Case {
+	cfg := Cfg{Delay: 10, FbDelay: 12, FbEnabled: !r.Chance(1, 6), Orig: "standby"}
+	cfg.Fthr, cfg.Rthr = pickThr(r)
+	if r.Chance(1, 4) {
+		cfg.Delay, cfg.FbDelay = 1+r.Intn(6), 1+r.Intn(6)
+	}
+	n := 6 + r.Intn(maxLen)
+	var evs []Ev
+	run := func(k string, n int) {
+		for ; n > 0; n-- {
+			evs = append(evs, Ev{K: k})
+			if r.Chance(1, 3) {
+				evs = append(evs, Ev{K: "adv", D: 1 + r.Intn(4)})
+			}
+		}
+	}
+	for len(evs) < n {
+		switch x := r.Intn(10); {
+		case x < 4:
+			run("down", []int{1, cfg.Fthr - 1, cfg.Fthr, cfg.Fthr + 1}[r.Intn(4)])
+		case x < 7:
+			run("up", []int{1, cfg.Rthr - 1, cfg.Rthr, cfg.Rthr + 1}[r.Intn(4)])
+		case x < 8:
+			evs = append(evs, Ev{K: "adv", D: []int{1, cfg.Delay - 1, cfg.Delay, cfg.FbDelay}[r.Intn(4)]})
+		default:
+			evs = append(evs, Ev{K: []string{"firefo", "firefo", "firefb", "tick"}[r.Intn(4)]}, Ev{K: "cb", I: 0, Ok: !r.Chance(1, 5)})
+		}
+	}
+	var o []Ev
+	for _, e := range evs {
+		if e.K == "adv" && e.D <= 0 {
+			continue
+		}
+		o = append(o, e)
+	}
+	if r.Chance(1, 3) {
+		o = viaHTTP(r, o)
+	}
+	return Case{Cfg: cfg, Evs: o}
+}
+
+// viaHTTP turns the case's injected check results into real checks against the scripted partner
+var failKinds = []string{"500", "204", "badjson", "degraded", "abort"}
+
+func viaHTTP(r *vh.Rng, evs []Ev) []Ev {
+	o := append([]Ev(nil), evs...)
+	for i := range o {
+		switch o[i].K {
+		case "down":
+			o[i].V = failKinds[r.Intn(len(failKinds))]
+		case "up":
+			o[i].V = "ok"
+		}
+	}
+	return o
+}
+
+// checkSequences: EVERY sequence of check results up to length maxLen, for several threshold pairs,
+// each in two forms: (a) the checks alone, then the failover delay elapses and the timer function runs;
+// (b) two time units pass after every check and whatever timer is due runs (so a promotion happens in
+// the middle of the sequence exactly when the partner has been down for the delay).
+func checkSequences(maxLen int) []vh.Case {
+	var out []vh.Case
+	for _, th := range [][2]int{{3, 2}, {2, 2}, {1, 3}, {2, 1}} {
+		cfg := Cfg{Delay: 4, FbDelay: 4, FbEnabled: true, Orig: "standby", Fthr: th[0], Rthr: th[1]}
+		for l := 1; l <= maxLen; l++ {
+			for bits := 0; bits < 1<<l; bits++ {
+				var a, b []Ev
+				for i := 0; i < l; i++ {
+					k := "down"
+					if bits>>i&1 == 1 {
+						k = "up"
+					}
+					a = append(a, Ev{K: k})
+					b = append(b, Ev{K: k}, Ev{K: "adv", D: 2}, Ev{K: "firefo"}, Ev{K: "cb", I: 0, Ok: true}, Ev{K: "firefb"}, Ev{K: "cb", I: 0, Ok: true})
+				}
+				a = append(a, Ev{K: "adv", D: cfg.Delay}, Ev{K: "firefo"}, Ev{K: "cb", I: 0, Ok: true})
+				ca, _ := run(Case{Cfg: cfg, Evs: a}, "check-sequence", fmt.Sprintf("check-seq-len:%d", l))
+				out = append(out, ca)
+				if l <= maxLen-2 {
+					cb, _ := run(Case{Cfg: cfg, Evs: b}, "check-sequence-timed", fmt.Sprintf("check-seq-len:%d", l))
+					out = append(out, cb)
+				}
+			}
+		}
+	}
+	return out
 }
 
 // parse "down adv10 cb0ok ..." into events
@@ -481,9 +961,12 @@ var witnesses = []string{
 }
 
 func genDefect(r *vh.Rng) Case {
-	cfg := Cfg{Delay: 10, FbDelay: 12, FbEnabled: true, Orig: "standby"}
+	cfg := Cfg{Delay: 10, FbDelay: 12, FbEnabled: true, Orig: "standby", Fthr: 1, Rthr: 1}
+	if r.Chance(1, 3) {
+		cfg.Fthr, cfg.Rthr = 1+r.Intn(3), 1+r.Intn(3)
+	}
 	alpha := alphabet(cfg, 3)
-	evs := parseEvs(witnesses[r.Intn(len(witnesses))])
+	evs := expand(parseEvs(witnesses[r.Intn(len(witnesses))]), cfg)
 	for k := r.Intn(4); k > 0; k-- { // insert a few events
 		i := r.Intn(len(evs) + 1)
 		e := alpha[r.Intn(len(alpha))]
@@ -507,24 +990,47 @@ func genGuarded(r *vh.Rng, maxLen int) Case {
 	if r.Chance(1, 5) {
 		cfg.Delay, cfg.FbDelay = 1+r.Intn(6), 1+r.Intn(6)
 	}
+	cfg.Fthr, cfg.Rthr = pickThr(r)
 	advs := []int{1, 3, cfg.Delay - 1, cfg.Delay, cfg.Delay + 1, cfg.FbDelay}
 	n := 4 + r.Intn(maxLen)
 	var evs []Ev
+	h := hyst{up: true}
 	adv := func() {
 		if d := advs[r.Intn(len(advs))]; d > 0 {
 			evs = append(evs, Ev{K: "adv", D: d})
 		}
 	}
+	check := func(ok bool, times int) {
+		for ; times > 0; times-- {
+			evs = append(evs, Ev{K: map[bool]string{false: "down", true: "up"}[ok]})
+			h.step(cfg, ok)
+		}
+	}
+	reps := func(thr int) int { // mostly whole threshold-sized runs so that reports are frequent
+		if thr > 1 && r.Chance(2, 3) {
+			return thr
+		}
+		return 1
+	}
 	if cfg.Delay == 10 && cfg.FbDelay == 12 && r.Chance(1, 2) {
-		evs = parseEvs([]string{"down adv10 firefo cb0ok", "down adv10 firefo cb0ok up", "down adv10 firefo cb0ok up adv12", "down adv10"}[r.Intn(4)])
+		for _, e := range expand(parseEvs([]string{"down adv10 firefo cb0ok", "down adv10 firefo cb0ok up", "down adv10 firefo cb0ok up adv12", "down adv10"}[r.Intn(4)]), cfg) {
+			switch e.K {
+			case "down":
+				check(false, 1)
+			case "up":
+				check(true, 1)
+			default:
+				evs = append(evs, e)
+			}
+		}
 		n += len(evs)
 	}
 	for len(evs) < n {
 		switch x := r.Intn(20); {
 		case x < 4:
-			evs = append(evs, Ev{K: "down"})
+			check(false, reps(cfg.Fthr))
 		case x < 7:
-			evs = append(evs, Ev{K: "up"})
+			check(true, reps(cfg.Rthr))
 		case x < 11:
 			adv()
 		case x < 12:
@@ -536,10 +1042,11 @@ func genGuarded(r *vh.Rng, maxLen int) Case {
 			evs = append(evs, Ev{K: k})
 			for j := r.Intn(3); j > 0; j-- { // the grace period / callback window
 				switch y := r.Intn(4); {
-				case y == 0 && k != "firefb":
-					evs = append(evs, Ev{K: "down"})
+				case y == 0 && (k != "firefb" || !h.wouldGoDown(cfg)):
+					// during a failback window only failed checks that do not take the partner down
+					check(false, 1)
 				case y == 1:
-					evs = append(evs, Ev{K: "up"})
+					check(true, 1)
 				default:
 					adv()
 				}
@@ -564,11 +1071,19 @@ Print R.
 func main() {
 	cfg := vh.ParseFlags()
 	if cfg.Replay != "" {
-		var c Case
+		var c struct {
+			Case
+			Script string `json:"script"`
+		}
 		if err := vh.LoadReplay(cfg.Replay, &c); err != nil {
 			panic(err)
 		}
-		cs, _ := run(c)
+		if c.Script != "" { // a real-time case
+			cs, _ := runRT(RT{Cfg: c.Cfg, Script: c.Script})
+			vh.Emit(cfg, "cases", header, footer, []vh.Case{cs}, nil)
+			return
+		}
+		cs, _ := run(c.Case)
 		vh.Emit(cfg, "cases", header, footer, []vh.Case{cs}, nil)
 		return
 	}
@@ -588,12 +1103,21 @@ func main() {
 	if cfg.Thorough() {
 		depth, nrand, maxLen = 5, 2500, 40
 	}
-	std := Cfg{Delay: 10, FbDelay: 12, FbEnabled: true, Orig: "standby"}
+	std := Cfg{Delay: 10, FbDelay: 12, FbEnabled: true, Orig: "standby", Fthr: 1, Rthr: 1}
 	ex := explore(std, depth, seedPrefixes)
-	ex = append(ex, explore(Cfg{Delay: 10, FbDelay: 12, FbEnabled: false, Orig: "standby"}, depth, seedPrefixes[:4])...)
-	ex = append(ex, explore(Cfg{Delay: 10, FbDelay: 12, FbEnabled: true, Orig: "active"}, 2, nil)...)
+	ex = append(ex, explore(Cfg{Delay: 10, FbDelay: 12, FbEnabled: false, Orig: "standby", Fthr: 1, Rthr: 1}, depth, seedPrefixes[:4])...)
+	ex = append(ex, explore(Cfg{Delay: 10, FbDelay: 12, FbEnabled: true, Orig: "active", Fthr: 1, Rthr: 1}, 2, nil)...)
+	// the repository's default thresholds (3 failures / 2 successes): the counters are part of the fingerprint
+	d32 := depth
+	if cfg.Thorough() {
+		d32 = depth - 1
+	}
+	ex = append(ex, explore(Cfg{Delay: 10, FbDelay: 12, FbEnabled: true, Orig: "standby", Fthr: 3, Rthr: 2}, d32, seedPrefixes)...)
+	if cfg.Thorough() {
+		ex = append(ex, explore(Cfg{Delay: 10, FbDelay: 12, FbEnabled: true, Orig: "standby", Fthr: 2, Rthr: 3}, depth-2, seedPrefixes[:5])...)
+	}
 	vh.Emit(cfg, "exhaustive", header, footer, ex, map[string]interface{}{"exhaustive": true,
-		"exhaustive_note": fmt.Sprintf("breadth-first over the 19-event alphabet to depth %d from the initial state and from 7 seeded deeper states; a sequence is extended only when it reaches a new implementation-state fingerprint (role, state, health, timer remaining times, zombie timers, outstanding callbacks, age of the down report)", depth)})
+		"exhaustive_note": fmt.Sprintf("breadth-first over the 19-event alphabet to depth %d from the initial state and from up to 7 seeded deeper states, for thresholds 1/1 (three configurations), 3/2 (thorough: one level less) and (thorough tier, two levels less) 2/3; a sequence is extended only when it reaches a new implementation-state fingerprint (role, state, health flag, consecutive-failure / -success counters capped at the thresholds, timer remaining times, zombie timers, outstanding callbacks, age of the down report)", depth)})
 	r := vh.NewRng(cfg.Seed)
 	var cases []vh.Case
 	for i := 0; i < nrand; i++ {
@@ -612,4 +1136,17 @@ func main() {
 		defect = append(defect, cs)
 	}
 	vh.Emit(cfg, "defect", header, footer, defect, nil)
+	seqLen := 5
+	if cfg.Thorough() {
+		seqLen = 8
+	}
+	vh.Emit(cfg, "checkseq", header, footer, checkSequences(seqLen), map[string]interface{}{"exhaustive": true,
+		"exhaustive_note": fmt.Sprintf("every sequence of health-check results of length 1..%d for the threshold pairs 3/2, 2/2, 1/3, 2/1, alone (then the delay elapses and the timer runs) and, up to length %d, with time passing and due timers running after every check", seqLen, seqLen-2)})
+	var flap []vh.Case
+	for i := 0; i < nrand; i++ {
+		cs, _ := run(genFlap(r.Fork(), maxLen), "flap")
+		flap = append(flap, cs)
+	}
+	vh.Emit(cfg, "flap", header, footer, flap, nil)
+	vh.Emit(cfg, "realtime", header, footer, realtimeCases(cfg.Thorough()), map[string]interface{}{"note": "the controller's real time.AfterFunc timers fire by themselves (delays in milliseconds); model time = measured real time rounded down; timer-pending flags filled from State()"})
 }
